@@ -184,7 +184,8 @@ def callMethod (cs : Classes) (h : Heap) (recv : Val) (name : String) (args : Li
           | _ => .raised "TypeError")
        else .noAttr
      | some (.dict c es) =>
-       if name == "pop" then
+       -- (a mapping that is no dict — mappingproxy — has none of the methods)
+       if name == "pop" && isA cs c "dict" then
          (match dictPop h es args with
           | .ok (es', v) => .ret (h.set a (.dict c es')) v
           | .error e => .raised e)
@@ -194,7 +195,8 @@ def callMethod (cs : Classes) (h : Heap) (recv : Val) (name : String) (args : Li
        -- `set.pop()` takes an arbitrary element: not modelled; a frozenset has none of the three
        if name == "pop" && isA cs c "set" then .unmodelled else .noAttr
      | some (.inst c attrs) =>
-       if (attrs.find? (·.1 == name)).isSome then .unmodelled
+       -- (`UserDict.pop` — a MutableMapping method working on `data` — is not modelled)
+       if (attrs.find? (·.1 == name)).isSome || (isA cs c "UserDict" && name == "pop") then .unmodelled
        else if name == "__next__" && isA cs c "It" then
          (match args with
           | [] =>
